@@ -15,7 +15,6 @@ import (
 	"verif/engine/sx"
 )
 
-
 // Report aggregates what a check run established.
 type Report struct {
 	ID    string
@@ -23,41 +22,41 @@ type Report struct {
 	Seed  int64
 	Level string
 
-	Skeletons      int
-	Skipped        int
-	SkelErrors     []string
-	Paths          int
-	Forks          int
-	Steps          int64
-	VerdictUnsat   int
-	VerdictSat     int
-	VerdictUnknown int
-	FeasQueries    int
-	Validated      int
-	ValidateSkip   int
-	SolverTime     time.Duration
-	SolverQueries  int
-	Inconclusive   map[string]int
-	EngineErrors   []string
-	Findings       []Finding
-	Samples        []any
-	Funcs          map[string]int
-	Intrinsics     map[string]int
-	ForkSites      map[string]int
-	Assumptions    map[string]bool
-	Bounds         []string
-	Outside        []string
-	Families       map[string]int
-	Extra          map[string]any
-	NilVerdicts    int
-	ErrVerdicts    int
-	VacuityIssues  []string
-	SharedWrites   map[string]int
-	OracleCases    int
-	SecondOpinions int
+	Skeletons           int
+	Skipped             int
+	SkelErrors          []string
+	Paths               int
+	Forks               int
+	Steps               int64
+	VerdictUnsat        int
+	VerdictSat          int
+	VerdictUnknown      int
+	FeasQueries         int
+	Validated           int
+	ValidateSkip        int
+	SolverTime          time.Duration
+	SolverQueries       int
+	Inconclusive        map[string]int
+	EngineErrors        []string
+	Findings            []Finding
+	Samples             []any
+	Funcs               map[string]int
+	Intrinsics          map[string]int
+	ForkSites           map[string]int
+	Assumptions         map[string]bool
+	Bounds              []string
+	Outside             []string
+	Families            map[string]int
+	Extra               map[string]any
+	NilVerdicts         int
+	ErrVerdicts         int
+	VacuityIssues       []string
+	SharedWrites        map[string]int
+	OracleCases         int
+	SecondOpinions      int
 	ResolveErrorsAgreed int
 	ResolveRefused      int
-	Explanation    string
+	Explanation         string
 }
 
 func NewReport(id, tier string, seed int64) *Report {
@@ -296,32 +295,32 @@ func (r *Report) writeEvidence(wall float64, violations, inconclusive int) {
 		funcs[k] = "interpreted-from-ssa"
 	}
 	cov := map[string]any{
-		"states":                        r.Paths,
-		"transitions":                   r.Forks,
-		"traces_validated_against_impl": r.Validated,
-		"samples":                       samples,
-		"skeletons":                     r.Skeletons,
-		"families":                      r.Families,
-		"ssa_instructions_executed":     r.Steps,
-		"verdict_queries":               map[string]int{"unsat": r.VerdictUnsat, "sat": r.VerdictSat, "unknown": r.VerdictUnknown},
-		"feasibility_queries":           r.FeasQueries,
-		"solver_queries_total":          r.SolverQueries,
-		"solver_time_s":                 r.SolverTime.Seconds(),
-		"functions_encoded":             topN(r.Funcs, 60),
-		"callee_treatment":              topN(r.Intrinsics, 60),
-		"fork_sites":                    topN(r.ForkSites, 20),
-		"bounds":                        r.Bounds,
-		"outside_claim":                 r.Outside,
-		"inconclusive_paths":            inconclusive,
-		"engine_errors":                 len(r.EngineErrors),
-		"skeleton_errors":               len(r.SkelErrors),
-		"oracle_cases_checked":          r.OracleCases,
-		"findings_reproduced":           len(r.Findings),
-		"exhaustive":                    false,
+		"states":                            r.Paths,
+		"transitions":                       r.Forks,
+		"traces_validated_against_impl":     r.Validated,
+		"samples":                           samples,
+		"skeletons":                         r.Skeletons,
+		"families":                          r.Families,
+		"ssa_instructions_executed":         r.Steps,
+		"verdict_queries":                   map[string]int{"unsat": r.VerdictUnsat, "sat": r.VerdictSat, "unknown": r.VerdictUnknown},
+		"feasibility_queries":               r.FeasQueries,
+		"solver_queries_total":              r.SolverQueries,
+		"solver_time_s":                     r.SolverTime.Seconds(),
+		"functions_encoded":                 topN(r.Funcs, 60),
+		"callee_treatment":                  topN(r.Intrinsics, 60),
+		"fork_sites":                        topN(r.ForkSites, 20),
+		"bounds":                            r.Bounds,
+		"outside_claim":                     r.Outside,
+		"inconclusive_paths":                inconclusive,
+		"engine_errors":                     len(r.EngineErrors),
+		"skeleton_errors":                   len(r.SkelErrors),
+		"oracle_cases_checked":              r.OracleCases,
+		"findings_reproduced":               len(r.Findings),
+		"exhaustive":                        false,
 		"verdicts_decided_by_second_solver": r.SecondOpinions,
-		"resolve_errors_agreed":         r.ResolveErrorsAgreed,
-		"resolve_refused_as_documented": r.ResolveRefused,
-		"workers":                       runtime.NumCPU(),
+		"resolve_errors_agreed":             r.ResolveErrorsAgreed,
+		"resolve_refused_as_documented":     r.ResolveRefused,
+		"workers":                           runtime.NumCPU(),
 	}
 	if r.Explanation != "" {
 		cov["explanation"] = r.Explanation
